@@ -9,7 +9,7 @@ ROOT = os.path.dirname(os.path.dirname(os.path.abspath(__file__)))
 CHECKS = {
  "C01": ("exploration",
          "bounded exhaustive enumeration of strings and token sequences over the full token alphabet through both parse entry points, with a parser progress monitor and process-level death/stall pinpointing",
-         "Every string of <= 5 (thorough 6) atoms over eight 14-symbol alphabets of critical atoms, every sequence of <= 3 (thorough 4) tokens over the token alphabet derived from SyntaxKind at run time (92 lexer-producible kinds plus text-dependent and malformed variants; rendered with blanks, tightly, and with an empty comment between all lexemes), thorough also every 5-token sequence at parser level (6.5e9), every model leaf statement under single-token faults (each token deleted, duplicated, replaced by each of 11 offenders (one of them a character the lexer does not know)), a long program cut after every token count, and 46 scaling families up to nesting 256 / 64 KiB are pushed through SourceFile::parse and SourceFile::parse_check_lex under catch_unwind in worker processes. A panic, failed assertion, overflow (strict profile), a parser loop that stops consuming (hook), a dead or stalled worker, or work above a frozen constant per token is a violation. Exhaustive within the bounds, so every grammar loop meets every token kind as the offending token by construction.",
+         "Every string of <= 5 (thorough 6) atoms over nine 14-symbol alphabets of critical atoms, every sequence of <= 3 (thorough 4) tokens over the token alphabet derived from SyntaxKind at run time (92 lexer-producible kinds plus text-dependent and malformed variants; rendered with blanks, tightly, and with an empty comment between all lexemes), thorough also every 5-token sequence at parser level (6.5e9), every model leaf statement under single-token faults (each token deleted, duplicated, replaced by each of 11 offenders (one of them a character the lexer does not know)), a long program cut after every token count, and 46 scaling families up to nesting 256 / 64 KiB are pushed through SourceFile::parse and SourceFile::parse_check_lex under catch_unwind in worker processes. A panic, failed assertion, overflow (strict profile), a parser loop that stops consuming (hook), a dead or stalled worker, or work above a frozen constant per token is a violation. Exhaustive within the bounds, so every grammar loop meets every token kind as the offending token by construction.",
          "Bounds: see evidence (lengths, nesting 256, 64 KiB). Strict build profile (debug assertions, overflow checks). Hook oq3_verif counts look-aheads/events. Four genuine defects found this way were repaired by fix: commits (known_findings.jsonl, fixed entries).",
          "DESIGN.md section 7, C01"),
  "C02": ("exploration",
@@ -74,7 +74,7 @@ CHECKS = {
          "DESIGN.md section 7, C13"),
  "C14": ("exploration",
          "bounded exhaustive enumeration of input strings over critical alphabets, invariant oracle on every one",
-         "Every string of at most 5 (thorough: 6-7) symbols over eight 14-symbol alphabets of lexically critical atoms is lexed by the real lexer and by LexedStr; on each the partition invariants (non-zero lengths, character boundaries, suffix offsets, lengths summing to the input, strictly increasing offsets, slicing never fails, two runs equal) are checked. Exhaustive within the bound, so every lexer shortcut reachable with <= 7 critical atoms is hit by construction rather than by luck.",
+         "Every string of at most 5 (thorough: 6-7) symbols over nine 14-symbol alphabets of lexically critical atoms is lexed by the real lexer and by LexedStr; on each the partition invariants (non-zero lengths, character boundaries, suffix offsets, lengths summing to the input, strictly increasing offsets, slicing never fails, two runs equal) are checked. Exhaustive within the bound, so every lexer shortcut reachable with <= 7 critical atoms is hit by construction rather than by luck.",
          "Nothing is claimed for strings beyond the bound or characters outside the alphabets. Trusted: rustc, the harness.",
          "DESIGN.md section 7, C14"),
  "C15": ("exploration",
@@ -94,7 +94,7 @@ CHECKS = {
          "DESIGN.md section 7, C17"),
  "C18": ("exploration",
          "exhaustive enumeration of file-system arrangements x search lists x resolution modes x entry points x main programs against a reference resolver and the analysis of the textually inlined program",
-         "Real directory trees are built under /verif/.work: every assignment of the include files to subsets of 2 (thorough 3) search directories with directory-specific contents (so the directory picked is observable in the graph), file b in 5 flavours (own symbol, uses a's symbol, includes a, syntax fault, lexical fault), every search list that is a permutation of a subset of the directories, given explicitly (with QASM3_PATH set to the reverse order, which must be ignored), through QASM3_PATH only, or not at all, both entry points (string and file), and 20 main programs (include first / between declarations / used afterwards / name clash / two files in both orders / twice / below global scope in if and def / missing / with stdgates / missing in the middle / absolute path / nested / invalid escape / no path / the standard library between two real includes / annotation lines before an include in the middle and at the end), with and without a decoy file named stdgates.inc (benign or faulty) in every directory. Oracles: graph and symbols equal those of the inlined text, diagnostics equal as multiset plus exactly the predicted FileNotFound / IncludeNotInGlobalScope ones, the list tagged with each resolved canonical path holds the diagnostics of that file's own text, faults in the main text or in a file that is actually read gate analysis, no panic.",
+         "Real directory trees are built under /verif/.work: every assignment of the include files to subsets of 2 (thorough 3) search directories with directory-specific contents (so the directory picked is observable in the graph), file b in 5 flavours (own symbol, uses a's symbol, includes a, syntax fault, lexical fault), every search list that is a permutation of a subset of the directories, given explicitly (with QASM3_PATH set to the reverse order, which must be ignored), through QASM3_PATH only, or not at all, both entry points (string and file), and 22 main programs (include first / between declarations / used afterwards / name clash / two files in both orders / twice / below global scope in if and def / missing / with stdgates / missing in the middle / absolute path / nested / invalid escape / no path / the standard library between two real includes / annotation lines before an include in the middle and at the end), with and without a decoy file named stdgates.inc (benign or faulty) in every directory. Oracles: graph and symbols equal those of the inlined text, diagnostics equal as multiset plus exactly the predicted FileNotFound / IncludeNotInGlobalScope ones, the list tagged with each resolved canonical path holds the diagnostics of that file's own text, faults in the main text or in a file that is actually read gate analysis, no panic.",
          "Include cycles are not generated (outside the statement). Chains of nested includes of depth 1-20 (thorough 70) form a second space (F-CHAIN). The environment variable is set and cleared around each configuration inside single-threaded worker processes.",
          "DESIGN.md section 7, C18"),
  "C19": ("model_checking",
